@@ -21,6 +21,7 @@ size_t g_libc_calls;    /* number of calls to the *libc* allocator names (malloc
 size_t g_hook_allocs;   /* successful allocations through vf_alloc / vf_realloc */
 size_t g_hook_frees;    /* non-NULL releases through vf_free / vf_realloc */
 size_t g_k;             /* an arbitrary index fixed by the harness: pointwise "for all k" postconditions */
+size_t g_k2;            /* a second arbitrary index (copy models are exact at g_k and g_k2) */
 #define GHOST_ALLOC g_live, g_libc_calls, g_hook_allocs, g_hook_frees
 
 /* vacuity guard: a cover goal is an assertion that must FAIL (the condition is reachable) */
@@ -89,6 +90,7 @@ void *vf_realloc(void *p, size_t n)
         __CPROVER_assert(__CPROVER_POINTER_OFFSET(p) == 0, "realloc: pointer is the start of a block");
 #ifndef VF_MEMCPY_NOCONTENT
         if (g_k < old && g_k < n) { q[g_k] = ((unsigned char*)p)[g_k]; }
+        if (g_k2 < old && g_k2 < n) { q[g_k2] = ((unsigned char*)p)[g_k2]; }
 #endif
         __CPROVER_assume(g_hook_frees < (size_t)-1); g_hook_frees++;
         if (p == g_live) { g_live = NULL; }
@@ -116,16 +118,24 @@ void *(*vf_fp_r2)(void*, size_t) = vf_libc_realloc;
 #define VF_REM(s) (__CPROVER_OBJECT_SIZE(s) - __CPROVER_POINTER_OFFSET(s))
 
 #ifndef VF_BUILTIN_STRINGS
+size_t g_nul_at;   /* ghost hint for units compiled with -DVF_STRLEN_HINT: s[g_nul_at] is known to be NUL */
 size_t strlen(const char *s)
 {
     size_t i = 0;
+#ifdef VF_STRLEN_HINT
+    size_t lim = g_nul_at;
+    __CPROVER_assert(__CPROVER_r_ok(s, lim + 1), "strlen: readable up to the hinted terminator");
+    __CPROVER_assert(s[lim] == 0, "strlen model: a NUL stands at the hinted index");
+#else
+    size_t lim = VF_REM(s) - 1;
     __CPROVER_assert(__CPROVER_r_ok(s, 1), "strlen: readable");
-    __CPROVER_assert(s[VF_REM(s) - 1] == 0, "strlen model: object ends with NUL");
+    __CPROVER_assert(s[lim] == 0, "strlen model: object ends with NUL");
+#endif
     while (s[i] != 0)
         __CPROVER_assigns(i)
-        __CPROVER_loop_invariant(i < VF_REM(s))
+        __CPROVER_loop_invariant(i <= lim)
         __CPROVER_loop_invariant(g_k >= i || s[g_k] != 0)
-        __CPROVER_decreases(VF_REM(s) - i)
+        __CPROVER_decreases(lim - i)
     {
         i++;
     }
@@ -183,12 +193,14 @@ void *memcpy(void *dst, const void *src, size_t n)
     {
 #ifndef VF_MEMCPY_NOCONTENT
         unsigned char v = (g_k < n) ? ((const unsigned char*)src)[g_k] : 0;
+        unsigned char v2 = (g_k2 < n) ? ((const unsigned char*)src)[g_k2] : 0;
 #endif
 #ifndef VF_MEMCPY_NOHAVOC
         __CPROVER_havoc_slice(dst, n);
 #endif
 #ifndef VF_MEMCPY_NOCONTENT
         if (g_k < n) { ((unsigned char*)dst)[g_k] = v; }
+        if (g_k2 < n) { ((unsigned char*)dst)[g_k2] = v2; }
 #endif
     }
     return dst;
